@@ -128,3 +128,13 @@ def gen_time0_program(r, lps=None):
         p["rows"].append((ty, 0, [], [], outs))
     p["stopat"] = (r.below(lps), r.range(1, 300))
     return p
+
+
+def gen_time0_chain_program(r, lps=4):
+    """every LP keeps one zero-delay event chain alive at virtual time 0 (the event re-schedules itself unchanged: a tie, legal for the
+    runtime), so every GVT round has value exactly 0.0 until RootsimStop; with costly events (VERIF_EVENT_SPIN_NS) the worker that calls
+    RootsimStop is still inside its iteration when the others have left the main loop"""
+    p = dict(lps=lps, ncls=1, target=1 << 30, seed=r.u64(), grid=0, inits=[(l, 0, 0, 0) for l in range(lps)],
+             rows=[(0, 0, [], [], [(0, 0, 0, 0, 0)])], targets=[], plmode=0)
+    p["stopat"] = (r.below(lps), r.range(200, 3000))
+    return p
